@@ -17,7 +17,8 @@ EXPLANATION = (
     'graph caches are canonical memos (no history-dependent corrections); (A12f) an override that accepts '
     'mask / is_fixed / exclude forwards them when it delegates to a sibling; the processor excludes a vector '
     'whose connector scenario has no connection set and decodes again; (A9f) time-out / memory errors of the '
-    'complete analysis fall back to this encoder.  Not decided: coverage and equality with the complete encoder.')
+    'complete analysis fall back to this encoder.  Not decided: coverage and equality with the complete encoder.'
+    ' (A5q) in the candidate loop of the fast encoder an explicit raise while a candidate is built is caught, guarded by the feasibility of the graph built so far or by the inactive marker, and the next choice is applied only to a graph that passed `.feasible` (F24).')
 
 
 def neighbourhood(ctx, rule='A5n'):
